@@ -82,6 +82,18 @@ pub extern "C" fn verif_u64(id: u32) -> u64 {
     *inputs().u64s.get(&id).unwrap_or(&0)
 }
 
+/// One feasible value of `v` under the current path: natively the identity; under LLSE the solver supplies a witness
+/// and the path continues with `v` fixed to it (used for inputs the code under test no longer looks at).
+#[unsafe(no_mangle)]
+#[inline(never)]
+pub extern "C" fn verif_pick(v: u64) -> u64 {
+    let mut x = v;
+    unsafe {
+        std::ptr::write_volatile(&mut x, v);
+        std::ptr::read_volatile(&x)
+    }
+}
+
 #[unsafe(no_mangle)]
 #[inline(never)]
 pub extern "C" fn verif_assume(c: bool) {
@@ -181,6 +193,9 @@ pub fn bool_(id: u32) -> bool {
     let v = verif_u64(id);
     verif_assume(v < 2);
     v == 1
+}
+pub fn pick(v: u64) -> u64 {
+    verif_pick(v)
 }
 pub fn assume(c: bool) {
     verif_assume(c)
